@@ -46,6 +46,7 @@ type callEdge struct {
 	In     *ssa.Call
 	Callee *ssa.Function
 	Args   []*Term // argument terms in the caller's frame (index = callee param index)
+	Mk     *ssa.MakeClosure // closure creation edge (In == nil)
 }
 
 type Summary struct {
@@ -187,7 +188,7 @@ func (p *Prog) effects(fn *ssa.Function) *Summary {
 				if cf, ok := in.Fn.(*ssa.Function); ok {
 					// closures run (at most) in the dynamic extent of their creator or of
 					// the callee they are handed to; their effects count for the creator
-					s.calls = append(s.calls, callEdge{In: nil, Callee: cf})
+					s.calls = append(s.calls, callEdge{In: nil, Callee: cf, Mk: in})
 				}
 			}
 		}
@@ -515,6 +516,9 @@ func substTermFV(t *Term, env []*Term, fv map[string]*Term) *Term {
 		}
 		return t
 	case "param":
+		if env == nil {
+			return t // only free variables are being rewritten
+		}
 		var i int
 		fmt.Sscanf(t.S, "p%d", &i)
 		if i < len(env) && env[i] != nil {
@@ -525,7 +529,13 @@ func substTermFV(t *Term, env []*Term, fv map[string]*Term) *Term {
 		return t
 	}
 	nt := &Term{Op: t.Op, S: t.S, F: t.F, T: t.T, Fn: t.Fn}
-	for _, a := range t.A {
+	for i, a := range t.A {
+		if t.Op == "acc" && i > 0 {
+			// the stores of a captured variable are written in the closures' own frames:
+			// their parameters are not this frame's
+			nt.A = append(nt.A, a)
+			continue
+		}
 		nt.A = append(nt.A, substTermFV(a, env, fv))
 	}
 	if nt.Op == "dyncall" {
@@ -593,6 +603,16 @@ type resolvedFn struct {
 }
 
 func (p *Prog) resolveFuncTerm(ft *Term) (resolvedFn, bool) {
+	// a function-valued parameter captured by an inner closure travels as the address of
+	// the (never re-assigned) variable that holds it
+	for i := 0; ft != nil && i < 4; i++ {
+		switch {
+		case ft.Op == "deref" && len(ft.A) == 1, ft.Op == "addr" && len(ft.A) == 1:
+			ft = ft.A[0]
+		case ft.Op == "acc" && len(ft.A) == 1:
+			ft = ft.A[0]
+		}
+	}
 	if ft == nil || ft.Fn == nil {
 		return resolvedFn{}, false
 	}
@@ -687,9 +707,17 @@ func (p *Prog) walkCalls(root *ssa.Function, v walkVisitor) {
 				for i, a := range ce.Args {
 					nfr.env[i] = fr.sub(a)
 				}
-			} else if !fr.identity {
-				// a closure made here: its free variables are this frame's values
-				nfr.env, nfr.fv, nfr.identity = nil, nil, true
+			} else if ce.Mk != nil {
+				// a closure made here: its free variables are this frame's values (its own
+				// parameters stay symbolic)
+				fx := p.tx(f)
+				nfr.identity = false
+				nfr.fv = map[string]*Term{}
+				for i, fvar := range ce.Callee.FreeVars {
+					if i < len(ce.Mk.Bindings) {
+						nfr.fv["fv:"+fvar.Name()] = fr.sub(fx.Of(ce.Mk.Bindings[i], ce.Mk))
+					}
+				}
 			}
 			if v.onlyNew && !p.newHelper(ce.Callee) && ce.Callee.Parent() == nil {
 				if v.call != nil && ce.In != nil {
